@@ -306,7 +306,7 @@ func TestC19_Search(t *testing.T) {
 	rec.Rule("(C) databases x queries with an in-memory index injected through the verif setter: random word vectors for the vocabulary, random command embeddings (also NaN/Inf components, fewer embeddings than commands). Oracle: LoadEmbeddings() with no asset files changes nothing; with an index the result set at Limit >= N is unchanged, every score' in [score, score*(1+alpha)*(1+1e-12)], list non-increasing. Non-trivial = at least one score was raised.")
 	log.SetOutput(io.Discard) // LoadEmbeddings logs a note on every call
 	rapid.Check(t, func(t *rapid.T) {
-		cmds, cls := gen.DB(t, gen.CmdOpts{}, []int{0, 1, 3, 10, 1})
+		cmds, cls := gen.DB(t, gen.CmdOpts{Sized: true, Heavy: true}, []int{0, 1, 3, 10, 1})
 		db := gen.Load(t, cmds)
 		q, _ := gen.Query(t, cmds, []gen.QueryClass{"vocab", "vocab", "nlp", "mixed", "typo"})
 		opt := gen.Options(t, gen.OptSpec{N: len(cmds), BigLimit: true, NoPlatforms: true})
@@ -334,6 +334,10 @@ func TestC19_Search(t *testing.T) {
 			nEmb = rapid.IntRange(0, len(cmds)).Draw(t, "n-emb")
 		}
 		for i := 0; i < nEmb; i++ {
+			if rapid.IntRange(0, 5).Draw(t, "zero-emb") == 0 {
+				idx.CmdEmbeddings = append(idx.CmdEmbeddings, make([]float32, dim)) // zero vector: a command made of unknown words only
+				continue
+			}
 			idx.CmdEmbeddings = append(idx.CmdEmbeddings, rapid.SliceOfN(comp, dim, dim).Draw(t, "ce"))
 		}
 		database.VerifSetEmbeddingIndex(db, idx)
